@@ -219,4 +219,19 @@ CLAIMED["C16"] = dict(
     technique="TLA+ ownership/frame spec + TLC-generated call histories replayed in guarded arenas + TLC trace validation of region snapshots",
     ref="5/C16")
 
+CLAIMED["C17"] = dict(
+    text="Concurrency.tla models operations as sequences of atomic accesses to shared cells (the lazily cached VOPRF public key "
+         "with its check-then-write pair, tables behind sync.Once, immutable key material) with happens-before by goroutine "
+         "creation and once; TLC explores all interleavings: NoRace and Linearizable hold for the intended design (nothing "
+         "mutable is shared after construction) and the lazy-initialisation variant violates NoRace (negative control = the "
+         "defect found in the code). Every program TLC generates - 2 goroutines x 2 operations (thorough 3 x 2) per object kind: "
+         "type 1/2/3/5 issuers, the generic batch issuer, an ECDSA key, an Ed25519 key - runs on real goroutines released "
+         "together on a freshly constructed object in a harness built with -race; TLC validates the recorded events: no race-"
+         "detector report, every result equal to the sequential reference.",
+    note="Interleavings are controlled at call granularity; inside a call the race detector's happens-before analysis replaces "
+         "enumeration (it reports unsynchronised conflicting accesses whenever both occur in a run). The access-level model of "
+         "the dependency's internals is hand-written from reading circl.",
+    technique="TLA+ access-level concurrency spec + TLC over all interleavings + TLC-generated programs replayed on goroutines under the Go race detector + TLC trace validation",
+    ref="5/C17")
+
 NOT_YET = "check not built yet in this round (see DESIGN.md section 11 for the build order); no claim is made"
